@@ -26,7 +26,8 @@ ASSUMPTIONS = ["nesting depth above 64 (brackets, prefix-operator runs, assignme
                "a libFuzzer -timeout=25 hit is re-run once in isolation before it is reported as a hang"]
 
 REPL = [";", "(", ")", "{", "}", "=", "<", ">", "@", "class", "x", "1", "\"s\"", "measure", "new", ".",
-        "[", "]", "->", "final", "static", "return", ",", "+"]
+        "[", "]", "->", "final", "static", "return", ",", "+", "super", "this", "null", "destroy", "super.m()",
+        "this.f", "extends", "import a.b;"]
 
 
 def seed_sources():
@@ -291,6 +292,17 @@ def run_edits(ctx, seeds, gens):
             parts.append(head + "\n" + "\n".join(body) + "\n}")
         trng.shuffle(parts)
         shapes["typestress-%d" % ti] = "\n".join(parts) + "\nfunction main() -> void { Box<int> b = new Box<int>(); }\n"
+    # 'super' and 'this' where no class is around, in every typed position
+    for nm, expr in (("super", "super"), ("super-call", "super.run()"), ("super-field", "super.v"), ("this", "this"),
+                     ("this-field", "this.v"), ("this-call", "this.run()")):
+        shapes["outside-class:%s:init" % nm] = "function main() -> void { int a = %s; }\n" % expr
+        shapes["outside-class:%s:arg" % nm] = "function f(int k) -> int { return k; }\nfunction main() -> void { int a = f(%s); }\n" % expr
+        shapes["outside-class:%s:return" % nm] = "function f() -> int { return %s; }\nfunction main() -> void { }\n" % expr
+        shapes["outside-class:%s:assign" % nm] = "function main() -> void { int a = 0; a = %s; }\n" % expr
+        shapes["outside-class:%s:stmt" % nm] = "function main() -> void { %s; }\n" % expr
+        shapes["outside-class:%s:operand" % nm] = "function main() -> void { int a = 1 + %s; echo(%s); }\n" % (expr, expr)
+        shapes["static-method:%s" % nm] = ("class K { public int v; public constructor() -> K = default; public function run() -> int { return 1; } "
+                                           "public static function s() -> int { int a = %s; return 1; } }\nfunction main() -> void { }\n" % expr)
     shapes["missing-import"] = "import nowhere.Thing;\nfunction main() -> void { }\n"
     shapes["bad-token-after-import"] = "import bloch.lang.Object;\nfunction main() -> void { int x = ; }\n"
     # inheritance cycles with tails leading into them, under many names (class registries are hash
